@@ -144,6 +144,22 @@ func (c *Conn) Inject(from net.Addr, b []byte) *Injection {
 	return inj
 }
 
+// InjectSync hands one datagram to the serve loop from the calling goroutine and returns when the
+// reader has taken it (or the socket is closed). With several callers the datagrams are read in the
+// order in which the callers got here (the channel's send queue is FIFO), which makes the arrival
+// order a function of the schedule of the callers.
+func (c *Conn) InjectSync(from net.Addr, b []byte) bool {
+	if ua, ok := from.(*net.UDPAddr); ok {
+		from = &net.UDPAddr{IP: append(net.IP(nil), ua.IP...), Port: ua.Port, Zone: ua.Zone}
+	}
+	select {
+	case c.in <- Packet{From: from, B: b}:
+		return true
+	case <-c.closed:
+		return false
+	}
+}
+
 func (i *Injection) Delivered() bool {
 	select {
 	case <-i.done:
